@@ -766,3 +766,47 @@ pub mod codec {
     }
 
 }
+
+/// Run the real compaction input selection (`CompactionManifest::finalize_compaction_inputs`) on
+/// a synthetic version: `levels[l]` are the files of level `l` (level 0 newest first as the
+/// version keeps them, deeper levels in key order), `seed` the numbers of the files of `level`
+/// the compaction starts from. Returns the numbers of the selected files of `level` and
+/// `level + 1`.
+pub fn pick_inputs(
+    options: &crate::DbOptions,
+    levels: &[Vec<FileDump>],
+    level: usize,
+    seed: &[u64],
+) -> Result<(Vec<u64>, Vec<u64>), String> {
+    use crate::versioning::file_metadata::FileMetadata;
+    let table_cache = Arc::new(crate::table_cache::TableCache::new(options.clone(), 10));
+    let mut version = crate::versioning::version::Version::new(options.clone(), &table_cache, 0, 0);
+    for (idx, files) in levels.iter().enumerate().take(crate::config::MAX_NUM_LEVELS) {
+        for file in files {
+            let mut meta = FileMetadata::new(file.number);
+            meta.set_file_size(file.size);
+            meta.set_smallest_key(Some(to_internal_key(&file.smallest)?));
+            meta.set_largest_key(Some(to_internal_key(&file.largest)?));
+            version.files[idx].push(Arc::new(meta));
+        }
+    }
+    let seed_files: Vec<Arc<FileMetadata>> = version.files[level]
+        .iter()
+        .filter(|file| seed.contains(&file.file_number()))
+        .map(Arc::clone)
+        .collect();
+    if seed_files.is_empty() {
+        return Err("empty seed".to_string());
+    }
+    let mut list = crate::utils::linked_list::LinkedList::new();
+    let node = list.push(version);
+    let mut manifest = crate::compaction::manifest::CompactionManifest::new(options, level);
+    manifest.set_input_version(node);
+    manifest.set_compaction_level_files(seed_files);
+    manifest.finalize_compaction_inputs();
+    let numbers = |files: &[Arc<FileMetadata>]| files.iter().map(|f| f.file_number()).collect();
+    Ok((
+        numbers(manifest.get_compaction_level_files()),
+        numbers(manifest.get_parent_level_files()),
+    ))
+}
